@@ -137,6 +137,12 @@ class C07(Property):
                 cs.append({"scripts": self._mk_scripts([[(kind, 1, e, None, cm)], [(kind, 1, 0, None, CTX_LIVE)], [(5, 1, 0)],
                                                         [(kind, 1, 0, None, CTX_LIVE)]]),
                            "sched": [0, 1, 2, 0, 3, 1, 2, 3]})
+        # cache node promises every caller a COPY in its own destination: the joiner is held where DoEx hands it the shared
+        # result ("post" gate of the executor's barrier wrapper) while the leader returns, blanks its variable and reuses it for
+        # another key; the joiner must still receive what the overlapping execution PRODUCED (101)
+        for kind in (5, 8):
+            cs.append({"scripts": self._mk_scripts([[(kind, 1, 0), (kind, 2, 0)], [(kind, 1, 0, None, CTX_LIVE)], [(5, 1, 0)]]),
+                       "sched": [0, 1, 2, 0, 0, 0, 2, 1]})
         # ... and a caller whose context is already done: fails before any loader runs
         cs.append({"scripts": self._mk_scripts([[(5, 1, 0, None, CTX_DONE), (5, 1, 0, None, CTX_LIVE)], [(8, 1, 0, None, CTX_DONE)]]),
                    "sched": [0, 1, 0, 0]})
@@ -361,6 +367,7 @@ class C07(Property):
         steps, log = [], []
         lastt = 0
         node = is_node(case)   # no "seen blocked" judgement where network I/O is involved
+        posts = set()
         for s in r["steps"]:
             order = []
             for e in s["ev"]:
@@ -378,11 +385,15 @@ class C07(Property):
                     sts.append([2, 0])
                 elif x["st"] == 0:
                     sts.append([{"call": 0, "pre": 4}.get(x.get("l"), 3), x["op"]])
+                    if x.get("l") == "post":
+                        posts.add(t)
                 else:
                     sts.append([1, x["op"]])
                     if not s["skip"] and not node:
                         log.append([lastt, t, 4, x["op"], 0, 0, 0])
-            steps.append({"a": s["a"], "skip": s["skip"], "order": order, "st": sts})
+            steps.append({"a": s["a"], "skip": s["skip"], "order": order, "st": sts,
+                          "lab": [{"post": t in posts} for t in range(nt)]})
+            posts = set()
         # whoever is still blocked when the run is over (nothing parked any more) waits for ever
         if steps and not node:
             for t, st in enumerate(steps[-1]["st"]):
@@ -443,6 +454,8 @@ class C07(Property):
             fs.append("has_notfound")
         if any(e[2] == 6 for e in obs.get("log", [])):
             fs.append("has_store_fault")
+        if any(st[0] == 3 and x.get("post") for s_ in obs.get("steps", []) for st, x in zip(s_["st"], s_.get("lab", []))):
+            fs.append("joiner_held_after_doex")
         for m in sorted(set(o[4] for sc in case["scripts"] for o in sc if len(o) > 4 and o[4])):
             fs.append("ctx=%s" % {1: "live", 2: "cancelled-in-load", 3: "deadline-in-load", 4: "already-done"}[m])
         if any(o[3] in (CANCELED, DEADLINE, WCANCELED, WDEADLINE) for sc in case["scripts"] for o in sc):
